@@ -10,7 +10,7 @@ ID = "C15"
 LEVEL = "other"
 LEAN_MODULES = ["Sonic.Props.C15"] + existing_modules(["Sonic.Props.C10", "Sonic.Props.C11", "Sonic.Props.C01"])
 REQUIRED_THEOREMS = ["Sonic.Props.C15." + n for n in ["C15_string_width_independent", "C15_quote_width_independent", "C15_memcmp_avx2_eq_sse",
-                                                     "C15_memcmp_prod_eq_san"]]
+                                                     "C15_memcmp_prod_eq_san", "C15_parse_width_independent"]]
 CONFIGS = [("avx2", "prod"), ("sse", "prod"), ("dyn", "prod"), ("avx2", "san"), ("sse", "san"), ("dyn", "san")]
 SRC = {"c01": c01, "c03": c03, "c05": c05, "c06": c06, "c09": c09, "c10": c10, "c11": c11}
 RULE = ("the corpus lines of C01 (accept/reject: valid, prefixes, mutations), C03 (trees), C05 (string literals), C06 (serialisation), C09 "
